@@ -144,3 +144,6 @@ package zap
 //@ ensures muHeld(vc.m) == 0 && vc.cache == nil && chanClosed(vc.closeCh)
 //@ modifies vectorIndexCache.cache[vc], ghost muHeld[addr(vc.m)], ghost chanClosed[vc.closeCh], maps, alloc, cacheEntry.*, cell(ptr_cacheEntry), ghost faissLive
 //@ end
+
+//@ pkgstate monitorFreq readonly period of the cache monitor
+//@ pkgstate emptyVecPostingsList readonly shared sentinel of the vector postings
